@@ -634,7 +634,15 @@ static void setup(const scenario_t *sc)
 	req_overflow = false;
 	ev_overflow = false;
 	last_idle_ev = 0;
-	fibre_eventq_init(&evH, body_H, evbuf, sizeof(evbuf), sizeof(evbuf[0]));
+	static unsigned setup_no;
+	if (++setup_no & 1) {
+		fibre_eventq_init(&evH, body_H, evbuf, sizeof(evbuf), sizeof(evbuf[0]));
+	} else {
+		/* the static initialiser must describe the same fibre + event queue */
+		fibre_eventq_t tmp = FIBRE_EVENTQ_VAR_INIT(body_H, evbuf, sizeof(evbuf), sizeof(evbuf[0]));
+		memset(&evH, 0x5a, sizeof(evH));
+		memcpy(&evH, &tmp, sizeof(evH));
+	}
 	fibp[FY] = &fibY;
 	fibp[FS] = &fibS;
 	fibp[FH] = &evH.fibre;
